@@ -283,6 +283,21 @@ func H_C19_typed(v *V) {
 		data = vTagged(v, "ss", []string{"short:" + refQuote(R1) + " long:" + refQuote("l"+R1), "short:" + refQuote(R2) + " long:" + refQuote("l"+R2)})
 		wantOK = true
 	}
+	if class == 7 {
+		// the truth value of a mark: everything but the empty string, false, no and 0 switches it on
+		M := v.String(v.Shape("lv"))
+		data := vTagged(v, "s", []string{`long:"m" required:` + refQuote(M) + " hidden:" + refQuote(M) + " optional:" + refQuote(M)})
+		p := NewNamedParser("prog", None)
+		_, err := p.AddGroup("G", "", data)
+		v.Reach("checked")
+		v.Assert(err == nil, "a legal tag string is accepted")
+		if err == nil {
+			o := p.FindOptionByLongName("m")
+			on := !(M == "" || M == "false" || M == "no" || M == "0")
+			v.Assert(o != nil && o.Required == on && o.Hidden == on && o.OptionalArgument == on, "required / hidden / optional marks are on for every value but the empty string, false, no and 0")
+		}
+		return
+	}
 	var err error
 	p := NewNamedParser("prog", None)
 	if viaParse {
